@@ -56,7 +56,10 @@ static std::string grp(const rx_vec_f128* g) { std::string s = "["; for (int i =
 static void sink(const char* ev, const void* obj, unsigned long long a, unsigned long long b) {
 	if (!strcmp(ev, "iter")) {
 		if (a == 0) { // the program that is about to run (generated from the current generator seed)
-			Line l; l.str("e", "h_prog").num("i", g_prog).boolean("v2", g_v2).limbs("bytes", &g_vm->program, 3200); l.emit(out);
+			// with the branch targets of the interpreter's compiled bytecode (-2 for other instructions)
+			std::vector<long long> tg; int size = g_v2 ? 384 : 256;
+			for (int i = 0; i < size; ++i) tg.push_back(g_vm->bytecode[i].type == InstructionType::CBRANCH ? (long long)g_vm->bytecode[i].target : -2);
+			Line l; l.str("e", "h_prog").num("i", g_prog).boolean("v2", g_v2).limbs("bytes", &g_vm->program, 3200).nums("targets", tg); l.emit(out);
 		}
 		if (!g_sample.count({ g_prog, (unsigned)a })) return;
 		NativeRegisterFile* n = (NativeRegisterFile*)b;
